@@ -93,6 +93,9 @@ func log10root(e int) int {
 func recovery(idx int64, r *rand.Rand) {
 	kind := limgen.Kinds[r.IntN(4)]
 	spec := limgen.Gen(r, kind, limgen.Opts{Bounded: true})
+	if kind == "gradient" && r.IntN(8) == 0 {
+		spec.ProbeInt = limit.ProbeDisabled // no "next probe": the healthy run must climb and stay up however long it is
+	}
 	l := spec.New(nil, "c07")
 	hist := prefix(r, l, r.IntN(150))
 	e0 := l.EstimatedLimit()
@@ -120,6 +123,10 @@ func recovery(idx int64, r *rand.Rand) {
 		if n > 400 {
 			n = 400
 		}
+		if spec.ProbeInt == limit.ProbeDisabled {
+			n = 2100 // longer than any default probe countdown
+			rt.Count("gradient_recovery_runs_with_probing_disabled", 1)
+		}
 		q := spec.Queue()
 		probes, reached := 0, false
 		lastProbe := -1
@@ -139,6 +146,10 @@ func recovery(idx int64, r *rand.Rand) {
 			hist = append(hist, s)
 			after := l.EstimatedLimit()
 			rt.Count("healthy_samples", 1)
+			if limgen.Baseline(l) == 0 && spec.ProbeInt == limit.ProbeDisabled && i > 0 {
+				viol("healthy-run-collapsed-at-a-probe-although-probing-is-disabled", rt.J{"sample": i, "before": before, "after": after})
+				return
+			}
 			if limgen.Baseline(l) == 0 { // probe: baseline reset, estimate dropped to the floor
 				// a probe is only an excuse for not growing if it can be one: the countdown is at least one probe interval
 				if lastProbe >= 0 && i-lastProbe < spec.ProbeInt {
